@@ -856,7 +856,8 @@ package psatoken
 //@ func isCBORMap
 //@   property C20 C05 C06 C17 C18 C07 C04 C16
 //@   ensures[walk] cborTagWalk(old(buf)) != 2 ==> ret == (cborTagWalk(old(buf)) == 1)
-//@   assumes[map] ret == cborTopIsMap(bytesVal(buf)) :: definition of the decoder-side predicate by the RFC 8949 walk that ensures[walk] is proved against (cborTopIsMap(bytesVal(b)) == (cborTagWalk(b) == 1) for well-formed tag heads; reserved tag heads are refused by the decoder); audited by ground:iscbormap-audit and bounded:envelope
+//@   assumes[def-map] cborTagWalk(buf) != 2 ==> cborTopIsMap(bytesVal(buf)) == (cborTagWalk(buf) == 1) :: DEFINITION of the decoder-side predicate cborTopIsMap (abstract content, used by the assumed codec contracts) by the RFC 8949 walk; says nothing about this function's result; audited by ground:iscbormap-audit and bounded:envelope
+//@   assumes[def-reserved] cborTagWalk(buf) == 2 ==> !cborSelOK(bytesVal(buf)) :: the decoder refuses a reserved tag head (additional information 28..31) as not well-formed; audited by ground:iscbormap-audit
 //@   modifies nothing
 //@   option allocs=none
 //@   loop 0 invariant len(buf) <= len(buf0) && (cborTagWalk(buf0) == 2 || cborTagWalk(buf) == cborTagWalk(buf0))
